@@ -271,8 +271,23 @@ func C09(ctx *core.Ctx) {
 	}
 	// write steps extracted from SendReply into helpers of the same receiver
 	if sr := r.FnOpt(pf + "SendReply"); sr != nil {
-		for _, g := range localCone(sr, 2) {
-			if !helperFns[g] && g.Signature.Recv() != nil && types.Identical(g.Signature.Recv().Type(), sr.Signature.Recv().Type()) {
+		takesBoth := func(g *ssa.Function) bool { // a writing helper: it is handed the context and the output protocol
+			hasCtx, hasProto := false, false
+			for _, p := range g.Params {
+				if ssax.TypeNamed(p.Type(), "", "FContext") {
+					hasCtx = true
+				}
+				if ssax.TypeNamed(p.Type(), "", "FProtocol") {
+					hasProto = true
+				}
+			}
+			return hasCtx && hasProto && g.Object() != nil && !g.Object().Exported()
+		}
+		for _, g := range localCone(sr, 3) {
+			if helperFns[g] {
+				continue
+			}
+			if (g.Signature.Recv() != nil && types.Identical(g.Signature.Recv().Type(), sr.Signature.Recv().Type())) || takesBoth(g) {
 				r1fns = append(r1fns, g)
 				helperFns[g] = true
 				label[g] = ssax.Name(g)
@@ -497,9 +512,13 @@ func C09(ctx *core.Ctx) {
 				fctx = p
 			}
 		}
-		for _, c := range ssax.Calls(prep) {
-			if _, op := protoOp(c); op == "WriteRequestHeader" && ssax.Strip(c.Common.Args[1]) == ssa.Value(fctx) {
-				ok = true
+		// in prepareMessage itself or in a helper it hands the context to
+		fa := valueAliases(fctx)
+		for _, g := range localCone(prep, 2) {
+			for _, c := range ssax.Calls(g) {
+				if _, op := protoOp(c); op == "WriteRequestHeader" && fa[ssax.Strip(c.Common.Args[1])] {
+					ok = true
+				}
 			}
 		}
 		ctx.Check(ok, "C09.R3", ssax.Name(prep)+" › WriteRequestHeader(fctx)", fnPos(r, prep), "request header written from the caller's FContext", "the request header is not written from the caller's FContext")
@@ -512,9 +531,12 @@ func C09(ctx *core.Ctx) {
 				fctx = p
 			}
 		}
-		for _, c := range ssax.Calls(reply) {
-			if _, op := protoOp(c); op == "ReadResponseHeader" && ssax.Strip(c.Common.Args[1]) == ssa.Value(fctx) {
-				ok = true
+		fa := valueAliases(fctx)
+		for _, g := range localCone(reply, 2) {
+			for _, c := range ssax.Calls(g) {
+				if _, op := protoOp(c); op == "ReadResponseHeader" && fa[ssax.Strip(c.Common.Args[1])] {
+					ok = true
+				}
 			}
 		}
 		ctx.Check(ok, "C09.R3", ssax.Name(reply)+" › ReadResponseHeader(fctx)", fnPos(r, reply), "response headers merged into the caller's FContext", "response headers are merged into a context other than the caller's")
